@@ -43,6 +43,8 @@ type aobj struct {
 	fn     *ssa.Function // for kFunc / closures
 	site   ssa.Instruction
 	inFn   *ssa.Function // allocating function (for iterator isolation)
+	// initial: stands for whatever a package-level variable holds initially (closed under loads)
+	initial bool
 }
 
 func (o *aobj) String() string { return o.kind.String() + ":" + o.name }
@@ -206,6 +208,20 @@ func (a *ptsAnalysis) addContents(o *aobj, src oset) {
 // loadFrom: what a load through a pointer to o may yield.
 func (a *ptsAnalysis) loadFrom(dst ssa.Value, o *aobj) {
 	a.addAll(dst, a.contents[o])
+	if rt := o.root(); rt.kind == kGlobal {
+		// whatever a package-level variable was initialised with (package init functions are
+		// not reachable from the entries): one closed object per variable, itself process-wide
+		type initKey struct{ o *aobj }
+		io := rt
+		if !rt.initial {
+			io = a.objFor(initKey{rt}, kGlobal, "contents of "+rt.name, nil, nil)
+			io.initial = true
+			if !a.contents[io][io] {
+				a.addContents(io, oset{io: true})
+			}
+		}
+		a.add(dst, io)
+	}
 	for p := o.parent; p != nil; p = p.parent {
 		a.addAll(dst, a.contents[p])
 	}
